@@ -53,6 +53,12 @@ def run(ctx):
         plain_jobs.append(("query", prec, n, P, -1, head + call(-1) + "quit\n"))
         plain_jobs.append(("ref", prec, n, 1, 0, head + "gssvx 0 0 1 0 0 0 0 0x1p+0 8 4 0 0\nquit\n"))
         plain_jobs.append(("sufficient", prec, n, 1, 4000000, head + "gssvx 0 0 1 0 0 0 0 0x1p+0 8 4 0 4000000\nquit\n"))
+        # (b'') mode sequences in one process: the mode of a call is decided by ITS lwork only.  user->internal: the second call must not
+        # touch the first call's (stale, refilled) buffer nor place factors in it; internal->user and user->user(other size) likewise.
+        c1 = lambda lw: "gssvx 0 0 1 0 0 0 0 0x1p+0 8 4 0 %d\n" % lw
+        plain_jobs.append(("seq:user-internal", prec, n, 1, 0, head + c1(4000000) + c1(0) + "quit\n"))
+        plain_jobs.append(("seq:internal-user", prec, n, 1, 4000000, head + c1(0) + c1(4000000) + "quit\n"))
+        plain_jobs.append(("seq:user-user-internal", prec, n, 1, 0, head + c1(3000000) + c1(4000000) + c1(0) + "quit\n"))
         # (c) insufficient sizes
         for lw in sorted(set([1, 8, 64, 200, 512, 1000, 2000, 4000, 6000, 12000, 30000] + [rng.randint(1, 40000) for _ in range(3 if q else 12)])):
             plain_jobs.append(("userwork", prec, n, P, lw, head + call(lw) + "quit\n"))
@@ -64,7 +70,7 @@ def run(ctx):
     with ThreadPoolExecutor(C.NPROC) as ex:
         outs = list(ex.map(runp, plain_jobs))
     from collections import Counter
-    hist = Counter(); refs = {}
+    hist = Counter(); refs = {}; seqs = []
     for (kind, prec, n, P, lw, s), (ops, done, rc, err) in outs:
         blob = {"kind": kind, "prec": prec, "n": n, "P": P, "lwork": lw, "script": s, "rc": rc, "stderr": (err or "")[-600:]}
         ok, outcome = classify(ops, done, rc, err, n)
@@ -75,6 +81,18 @@ def run(ctx):
             res = ops[-1]
             if not (res["mem"][1] > 0): ctx.violation("query:estimate", "total_needed=%r not positive" % (res["mem"][1],), blob)
             if not res.get("noLU"): ctx.violation("query:factored", "a query produced factors", blob)
+        elif kind.startswith("seq:"):
+            if outcome != "success":
+                ctx.violation("%s:%s" % (kind, outcome), "mode sequence %s failed: %s" % (kind, outcome), blob); continue
+            gs = [o for o in ops if o.get("op") == "gssvx"]
+            last = gs[-1]
+            if last.get("stale_touched", 0) != 0:
+                ctx.violation("seq:stale-buffer-written", "a call with lwork=0 wrote %d bytes into the buffer of an EARLIER call (%s)" % (last["stale_touched"], kind), blob)
+            if last.get("stale_inside", 0) != 0:
+                ctx.violation("seq:factors-in-stale-buffer", "a call with lwork=0 returned factors inside the buffer of an earlier call (%s)" % kind, blob)
+            if kind == "seq:internal-user" and last.get("inside") != 1:
+                ctx.violation("seq:outside-buffer", "user-workspace call after an internal one: L/U not inside the caller's buffer", blob)
+            seqs.append((s.split("gssvx")[0], kind, (last["info"], tuple(last["perm_r"]), tuple(last["X"]), H.lu_signature(last)), blob))
         elif kind in ("ref", "sufficient"):
             if outcome != "success":
                 ctx.violation("%s:%s" % (kind, outcome), "run with %s workspace failed: %s" % (kind, outcome), blob); continue
@@ -88,6 +106,9 @@ def run(ctx):
         else:
             if not ok:
                 ctx.violation("userwork-too-small:" + outcome, "caller workspace of %d bytes (n=%d, P=%d): %s" % (lw, n, P, outcome), blob)
+    for key, kind, sig, blob in seqs:
+        if key in refs and refs[key] != sig:
+            ctx.violation("seq:differs-from-fresh", "last call of %s gives results differing from the same call in a fresh process" % kind, blob)
     # (d)
     def count_allocs(j):
         prec, n, P, head, call = j
@@ -119,7 +140,22 @@ def run(ctx):
             continue
         if not ok:
             ctx.violation("alloc-fault:" + outcome, "allocation request %d of %d fails (%s): %s" % (k, K, site, outcome), blob)
-    ctx.coverage.update({"evaluations": len(plain_jobs) + len(fj), "distinct_nontrivial": len(plain_jobs) + len(fj),
+    # (b') caller workspace large enough with several worker threads: "results match the internally-allocated mode".
+    # Diagonally dominant inputs (nonsingular for every pivot order) with more threads than work, so that workers start and
+    # leave at different times; each factorization is judged by the verified checkers and must report info = 0.
+    thr = []
+    for i, P in enumerate((2, 3, 4, 8)):
+        thr += S.sweep(ctx, 150 if q else 2500, 24, precs="dz" if q else "sdcz", drivers=("gssvx",), flavour="asan",
+                       force={"nprocs": P, "lwork": 4000000, "dominant": True}, seed_offset=1400 + i)
+    S.judge(ctx, thr, ["wfL", "wfU", "permr", "permc", "lu", "resid"], "threads+userwork")
+    for r in thr:
+        if r["status"] == "ok":
+            hist["threads+userwork:info=%s" % ("0" if r["info"] == 0 else "k")] += 1
+            if r["info"] != 0:
+                ctx.violation("threads+userwork:info", "nonsingular (diagonally dominant) matrix, ample caller workspace, P=%d: info=%d (internal-memory mode reports 0)" % (r["cfg"]["nprocs"], r["info"]), S.replay_blob(r))
+            if r["res"].get("redzone") == 0:
+                ctx.violation("threads+userwork:redzone", "guard band around the caller buffer damaged (P=%d)" % r["cfg"]["nprocs"], S.replay_blob(r))
+    ctx.coverage.update({"evaluations": len(plain_jobs) + len(fj) + len(thr), "threaded_userwork_runs": len(thr), "distinct_nontrivial": len(plain_jobs) + len(fj) + len(thr),
                          "rule": "configurations x {query, sufficient, reference, caller workspace sizes} under ASan; allocator failure from request k for k=1..K on the fault build (K = requests of the call, all k when K<=60 else 24+25 sampled in the quick tier)",
                          "outcomes": dict(hist), "fault_runs": len(fj), "fault_runs_where_a_failure_fired": fired,
                          "samples": [{"kind": j[0], "prec": j[1], "n": j[2], "P": j[3], "lwork": j[4]} for j in plain_jobs[:4]]})
